@@ -1,6 +1,15 @@
 F = 'xenium/ramalhete_queue.hpp'
 Q = r'ramalhete_queue<T, Policies\.\.\.>::'
 
+import re
+def node_vars(text, lw):
+    """unit-local rule: every local that holds a node (guard_ptr x; node* x = ...; auto x = new node / _head.load) is dereferenced with GDEREF"""
+    names = set()
+    for m in re.finditer(r'\bguard_ptr (\w+);|\bnode\* (\w+) =|\bauto (\w+) = (?:new node\b|_head\.load\b)', text):
+        names.update(x for x in m.groups() if x)
+    lw.spec = dict(lw.spec, deref={n: 'GDEREF' for n in names})
+    return text
+
 # rules shared by the queue member functions (push / pop / ctor / dtor)
 COMMON = dict(
     members=['_head', '_tail'],
@@ -17,7 +26,7 @@ COMMON = dict(
                (r'\bdelete (\w+)\.get\(\);', r'XV_DELETE_NODE(\1);', 'delete_node')],
     subst=[(r'\btraits::', 'TR_', 'traits'), (r'\bstd::ignore\s*=', '(void)', 'ignore'), (r'\bstd::nullopt\b', 'XV_NULLOPT', 'nullopt'),
            (r'\bmarked_(ptr|value)\b(?!\()', r'marked_\1_t', 'type_name')],
-    deref={'t': 'GDEREF', 'h': 'GDEREF', 'new_node': 'GDEREF', 'n': 'GDEREF'},
+    py_pre=node_vars,
     # nodes are kept as one small array per member (cheap for cbmc): node->member becomes N_member(node)
     post_subst=[(r'GDEREF\((\w+)\)->entries\[([^\]]+)\]\.value', r'N_entry(\1, \2)', 'node_entry'),
                 (r'GDEREF\((\w+)\)->(\w+)', r'N_\2(\1)', 'node_member')],
